@@ -115,6 +115,7 @@ def _fork_run(mod, seeds: list[int], tier: str, timeout: float, scenario: dict |
         except ProcessLookupError:
             pass
         os.waitpid(pid, 0)
+        _remove_sandboxes(seeds)
         return [{"seed": s, "harness_error": f"timeout after {timeout}s", "violations": [], "stats": {}} for s in seeds]
     _, status = os.waitpid(pid, 0)
     if status != 0 or not chunks:
@@ -123,6 +124,16 @@ def _fork_run(mod, seeds: list[int], tier: str, timeout: float, scenario: dict |
         return json.loads(b"".join(chunks))
     except Exception as e:  # noqa: BLE001
         return [{"seed": s, "harness_error": f"bad child output: {e}", "violations": [], "stats": {}} for s in seeds]
+
+
+def _remove_sandboxes(seeds: list[int]) -> None:
+    """A killed child cannot clean up: remove the sandboxes its worlds created (named after the seed)."""
+    import glob
+    import shutil
+    for s in seeds:
+        for lane_dir in glob.glob(os.path.join(SCRATCH, "*")):
+            for d in glob.glob(os.path.join(lane_dir, f"s{s & 0xFFFFFFFFFFFF:x}*")):
+                shutil.rmtree(d, ignore_errors=True)
 
 
 def _json_default(o):
@@ -160,6 +171,8 @@ def _worker(prop: str, wid: int, nworkers: int, master: int, tier: str, n_total:
             results = _fork_run(mod, seeds, tier, timeout * len(seeds))
             for res in results:
                 agg.add(res)
+                if pos <= per_fork and res.get("digest") and not res.get("violations"):
+                    out.write(json.dumps({"type": "digest", "seed": res["seed"], "digest": res["digest"]}) + "\n")
                 if res.get("violations") or res.get("harness_error"):
                     out.write(json.dumps({"type": "detail", "res": res}, default=_json_default) + "\n")
         out.write(json.dumps({"type": "agg", "agg": agg.dump(), "done": pos >= len(idxs),
@@ -304,6 +317,7 @@ def run_check(prop: str, tier: str, master: int | None = None) -> int:
             _sleep(0.05)
     agg = Aggregator(prop)
     details = []
+    digest_samples: list[tuple[int, str]] = []
     complete = True
     attempted = 0
     for wid in range(nworkers):
@@ -313,6 +327,9 @@ def run_check(prop: str, tier: str, master: int | None = None) -> int:
             with open(p) as f:
                 for line in f:
                     rec = json.loads(line)
+                    if rec["type"] == "digest":
+                        digest_samples.append((rec["seed"], rec["digest"]))
+                        continue
                     if rec["type"] == "agg":
                         agg.merge(rec["agg"])
                         complete = complete and rec["done"]
@@ -364,6 +381,19 @@ def run_check(prop: str, tier: str, master: int | None = None) -> int:
         exit_code = 1 if exit_code != 3 else 3
     if exit_code == 3 and new_violations:
         exit_code = 1
+    # reduced determinism self-test: re-execute a few seeds of this batch in a fresh fork of another process
+    det = {"checked": 0, "mismatches": 0}
+    if digest_samples:
+        from . import harness as _h
+        _h.setup_process()
+        if hasattr(mod, "warm"):
+            mod.warm()
+        for seed, dg in sorted(digest_samples)[:6]:
+            again = _fork_run(mod, [seed], tier, timeout)[0]
+            det["checked"] += 1
+            if again.get("digest") != dg:
+                det["mismatches"] += 1
+                print(f"HARNESS-ERROR: nondeterministic replay of seed {seed}: digest {dg} vs {again.get('digest')}", flush=True)
     for h in harness_errs[:5]:
         print(f"HARNESS-ERROR: seed={h['seed']} {h['harness_error']}\n{h.get('trace', '')}", flush=True)
     n_herr = agg.harness_errors
@@ -373,10 +403,12 @@ def run_check(prop: str, tier: str, master: int | None = None) -> int:
     ev_problem = None
     try:
         ev_problem = write_evidence(prop, tier, master, mod, agg, wall, known_seen, new_violations, n_herr, complete,
-                                    attempted, n_total)
+                                    attempted, n_total, det)
     except Exception:  # noqa: BLE001
         traceback.print_exc()
         ev_problem = "evidence writer failed"
+    if exit_code == 0 and det["mismatches"]:
+        exit_code = 3
     if exit_code == 0 and (n_herr or worker_fail or ev_problem):
         if ev_problem:
             print(f"HARNESS-ERROR: {ev_problem}", flush=True)
@@ -388,7 +420,7 @@ def run_check(prop: str, tier: str, master: int | None = None) -> int:
 
 
 def write_evidence(prop, tier, master, mod, agg: Aggregator, wall, known_seen, new_violations, n_herr, complete,
-                   attempted, n_total) -> str | None:
+                   attempted, n_total, det=None) -> str | None:
     c = dict(agg.counters)
     sim_seconds = c.pop("sim_seconds", 0.0)
     faults = {k[len("fault."):]: int(v) for k, v in c.items() if k.startswith("fault.")}
@@ -412,6 +444,7 @@ def write_evidence(prop, tier, master, mod, agg: Aggregator, wall, known_seen, n
         "known_findings_seen": known_seen,
         "new_violations": new_violations,
         "harness_errors": n_herr,
+        "determinism_selftest": det or {},
         "workers": NWORKERS,
         "python_hash_seed": os.environ.get("PYTHONHASHSEED"),
     }
